@@ -27,12 +27,25 @@ LTYPES = {
     "PyTree[Q]": ["pytree", Q],
     "tuple[PyTree[Q],Q]": ["tuple", [["pytree", Q], Q]],
     "PyTree[Q,'S']": ["pytree", Q, "S"],
+    # deeper nestings: structure-less PyTrees between / around the structured ones
+    "PyTree[PyTree[Q]]": ["pytree", ["pytree", Q]],
+    "PyTree[PyTree[Q,'S']]": ["pytree", ["pytree", Q, "S"]],
+    "PyTree[PyTree[PyTree[Q]],'S']": ["pytree", ["pytree", ["pytree", Q]], "S"],
 }
+
+
+def n_structured(L):
+    """Number of structured PyTrees on the way down to the '?' axis."""
+    if L[0] == "pytree":
+        return (1 if len(L) > 2 and L[2] else 0) + n_structured(L[1])
+    return 0
+
 # tree skeletons: number of leaf positions and a builder from a list of leaf specs
 SKEL = {
     "x": (1, lambda l: l[0]),
     "(x,y)": (2, lambda l: ["tuple", l]),
     "{q:x,p:y}": (2, lambda l: ["dict", {"q": l[0], "p": l[1]}]),
+    "{p:y,q:x}": (2, lambda l: ["dict", {"p": l[1], "q": l[0]}]),  # the same tree built in the other insertion order
     "(x,[y,z])": (3, lambda l: ["tuple", [l[0], ["list", l[1:]]]]),
 }
 
@@ -71,7 +84,7 @@ def sequences(lname, tier):
                 continue
             if L == 3 and tier == "quick" and (len(set(combo)) > 1 or combo[0] == "(x,[y,z])"):
                 continue
-            if tier == "quick" and combo[0] != combo[1] and "x" not in combo:
+            if tier == "quick" and combo[0] != combo[1] and "x" not in combo and not all(c.startswith("{") for c in combo):
                 continue
             npos = [SKEL[c][0] * ar for c in combo]
             if sum(npos) > (8 if tier == "quick" else 9):
@@ -136,7 +149,7 @@ def run_sequence(lname, outer, seq, plain, stats, aliased=False):
     ann = specs.build_ann(aspec)
     plain_ann = specs.build_ann(["arr", "n"])
     nested = L[0] == "pytree"
-    n_struct = (1 if outer == "T" else 0) + (1 if (nested and len(L) > 2) else 0)
+    n_struct = (1 if outer == "T" else 0) + n_structured(L)
     tspecs = [build_tree(lname, s, tuple(sz)) for s, sz in seq]
 
     def body():
@@ -261,7 +274,7 @@ def run(ctx):
         dontcare=stats["dontcare"],
         distinct_nontrivial=stats["nontrivial"],
         exhaustive=True,
-        bounds="sequences of 2 (quick) / 2-3 (thorough) trees over 4 skeletons (1-3 leaf positions), every assignment of sizes {2,3} to every array position, plain axis n=5 bound at every point of the sequence",
+        bounds="sequences of 2 (quick) / 2-3 (thorough) trees over 5 skeletons (1-3 leaf positions; the two-key dict in both insertion orders), every assignment of sizes {2,3} to every array position, plain axis n=5 bound at every point of the sequence",
     )
     return Result(level="model_checking", coverage=cov, violations=viols, assumptions=["reference keys '?' axes by (structure name, leaf index, axis name)", "for leaf types that are themselves PyTrees only 'never AnnotationError under exactly one structured PyTree' and 'AnnotationError under two / none' are asserted"])
 
